@@ -57,6 +57,14 @@ theorem sokoban_count_is_all (n : Nat) (s : State) (hc : Consistent n s) (h : bo
     ∀ p ∈ Grid.coords n n, Grid.get s.vgrid 0 p.1 p.2 = BOX → Grid.get s.fgrid 0 p.1 p.2 = TARGET :=
   Sokoban.all_boxes_on_targets hc h
 
+/-- both directions (audit r5 #4): on a consistent board the L1 count equals the number of boxes IFF every box stands on a target;
+and the L1 flag `levelComplete` (`count_targets == 4`) IS the documented notion `IsSolution` -/
+theorem sokoban_count_iff_all (n : Nat) (s : State) (hc : Consistent n s) :
+    (boxesOnTarget n s = nBoxes ↔
+      ∀ p ∈ Grid.coords n n, Grid.get s.vgrid 0 p.1 p.2 = BOX → Grid.get s.fgrid 0 p.1 p.2 = TARGET) ∧
+    (levelComplete s = true ↔ IsSolution n s) :=
+  ⟨Sokoban.count_iff_all hc, Sokoban.levelComplete_iff_solution hc⟩
+
 -- the hypotheses are satisfiable: the last push of the 4×4 example (Left from (0,3): box onto the fourth target)
 example :
     let cfg : Cfg := ⟨4, 100, false⟩
@@ -203,6 +211,17 @@ theorem sokoban_step_refines (rnd : Rat → Rat) (cfg : Cfg) (s : State) (a : Na
     (hf : Grid.shaped s.fgrid cfg.n cfg.n = true) (hv : Grid.shaped s.vgrid cfg.n cfg.n = true)
     (hag : inside cfg.n s.agent) : step rnd cfg s a = stepL2 rnd cfg s a :=
   Sokoban.step_refines rnd cfg s a ha hf hv hag
+
+/-- the DISCOUNT spelled out (audit r5 #13; `stepL2` hides it inside `condLast`): on a well-shaped board with the agent inside, for
+every action 0..3, the discount of `step` is 0 iff the successor prescribed by the rules has all boxes on targets or has reached the
+time limit, else 1 -/
+theorem sokoban_step_discount_rules (rnd : Rat → Rat) (cfg : Cfg) (s : State) (a : Nat) (ha : a < 4)
+    (hf : Grid.shaped s.fgrid cfg.n cfg.n = true) (hv : Grid.shaped s.vgrid cfg.n cfg.n = true)
+    (hag : inside cfg.n s.agent) :
+    (step rnd cfg s a).2.discount =
+      [if boxesOnTarget cfg.n (stepSpec cfg.n s a) = nBoxes ∨ cfg.timeLimit ≤ (stepSpec cfg.n s a).stepCount then 0 else 1] := by
+  rw [Sokoban.step_refines rnd cfg s a ha hf hv hag, Sokoban.stepL2_discount]
+  simp [doneSpec]
 
 /-- `detect_noop_action` keeps the action exactly when the rules allow the move -/
 theorem sokoban_noop_iff_illegal (n : Nat) (s : State) (a : Nat) (ha : a < 4)
@@ -358,6 +377,23 @@ theorem sokoban_episode_ends_by_limit (rnd : Rat → Rat) (cfg : Cfg) (hT : 0 < 
     ∃ k, Ep.firstLastTS ((Ep.rollout (step rnd cfg) s as).map (·.2)) = some k ∧ 0 < k ∧ (k : Int) ≤ cfg.timeLimit :=
   Ep.rollout_ends_by_limit (sokoban_exact rnd cfg).toLimited hT s trivial h0 as hlen
 
+/-- LAST at the level of the RULES (audit r5 #4): from a consistent board, for every action 0..3, `step` answers LAST exactly when
+the successor is a solved level — `IsSolution`: consistent and every box on a target, recomputed from the raw grids, not the L1
+flag `levelComplete` — or the time limit is reached -/
+theorem sokoban_last_iff_rules (rnd : Rat → Rat) (cfg : Cfg) (s : State) (a : Nat) (ha : a < 4)
+    (hc : Consistent cfg.n s) :
+    (step rnd cfg s a).2.stepType = .last ↔
+      (IsSolution cfg.n (step rnd cfg s a).1 ∨ cfg.timeLimit ≤ s.stepCount + 1) :=
+  Sokoban.last_iff_rules rnd cfg s a ha hc
+
+/-- the two episode iterators coincide (audit r5 #13): the C11 theorems are stated on `Ep.rollout` / `Ep.ofStep … .run`, the C07 / C09 /
+C01 theorems on `runState`; both iterate the same `step` -/
+theorem sokoban_run_eq (rnd : Rat → Rat) (cfg : Cfg) (s : State) (as : List Int) :
+    (Ep.ofStep (step rnd cfg) (·.stepCount)).run s as = runState rnd cfg s as := by
+  induction as generalizing s with
+  | nil => rfl
+  | cons a t ih => exact ih _
+
 -- three blocked moves with limit 3 on an unsolved board: MID, MID, LAST
 example : Ep.firstLastTS ((Ep.rollout (step id ⟨3, 3, true⟩)
     ⟨[[1,2,2],[0,2,2],[0,0,0]], [[0,4,4],[3,4,0],[0,4,0]], (1, 0), 0⟩ [0, 0, 0]).map (·.2)) = some 3 := by decide +kernel
@@ -395,22 +431,36 @@ example : Consistent 3 ⟨[[1,2,2],[0,2,2],[0,0,0]], [[0,4,4],[3,4,4],[0,0,0]], 
 example : (step id ⟨3, 1, false⟩ ⟨[[1,2,2],[0,2,2],[0,0,0]], [[0,4,4],[3,4,0],[0,4,0]], (1, 0), 0⟩ 1).2.obs.stepCount = 1 := by
   decide +kernel
 
+/-! NOTE on what the membership theorems of this section do and do not cover (audits r4 #6, r5 #6, r6 #8): the dtype tag of every leaf
+is written by `toNValue` (by construction) — a wrong dtype in the real code cannot falsify `….valid (toNValue …) = true`; dtypes and
+field order of the real observations are compared by the `sokoban.spec` / `sokoban.state` ops (`nvalue`: field order, shape, dtype, data) and
+`jax.eval_shape` in the sweeps.  Shapes are READ OFF the value by `toNValue` (widths off the first row): see `…_obs_valid_only`. -/
+
 /-! #### membership in the DECLARED spec (wave 3): structure, shapes, dtypes and bounds -/
 open Sp PzS
 
 /-- the model's specs against the table generated from the real spec objects (Gen/Specs.lean) for the two catalogue
-configurations: every generated leaf is the model's (the `grid` leaf, 10·10·2 = 200 elements, is above the size limit
-of the generated table: it is compared with the real object by the `sokoban.spec` op on every run, for every
-configuration of the adapter) -/
+configurations: every leaf of the real spec is the model's, in the same order (the `sokoban.spec` op also compares them with the
+real objects on every run, for every configuration of the adapter).
+(audit r5 #2) The generated table now holds every leaf whose BOUNDS are small, so the observation conjuncts are about the WHOLE
+`obsSpec` — the `grid` leaf (10, 10, 2) uint8 in `[0, 4]` included; they used to be filtered to the leaves of at most 160 elements —,
+action / reward / discount specs are compared for both catalogue configurations, and for the SPEC-ONLY
+`Sokoban(ToyGenerator(), time_limit=7)` (the specs do not depend on the time limit: `step_count` is an unbounded `specs.Array`) -/
 theorem sokoban_obsSpec_generated :
-    (prefixed "observation_spec." (obsSpec ⟨10, 120, true⟩)).filter (fun e => decide (prod e.2.shape ≤ 160))
-      = declared "sokoban-toy" "observation_spec." ∧
-    (prefixed "observation_spec." (obsSpec ⟨10, 120, true⟩)).filter (fun e => decide (prod e.2.shape ≤ 160))
-      = declared "sokoban-simple" "observation_spec." ∧
+    prefixed "observation_spec." (obsSpec ⟨10, 120, true⟩) = declared "sokoban-toy" "observation_spec." ∧
     [("action_spec", actionSpec)] = declared "sokoban-toy" "action_spec" ∧
     [("reward_spec", PzS.rewardSpec)] = declared "sokoban-toy" "reward_spec" ∧
-    [("discount_spec", discountSpec)] = declared "sokoban-toy" "discount_spec" := by
-  refine ⟨by decide, by decide, by decide, by decide, by decide⟩
+    [("discount_spec", discountSpec)] = declared "sokoban-toy" "discount_spec" ∧
+    prefixed "observation_spec." (obsSpec ⟨10, 120, true⟩) = declared "sokoban-simple" "observation_spec." ∧
+    [("action_spec", actionSpec)] = declared "sokoban-simple" "action_spec" ∧
+    [("reward_spec", PzS.rewardSpec)] = declared "sokoban-simple" "reward_spec" ∧
+    [("discount_spec", discountSpec)] = declared "sokoban-simple" "discount_spec" ∧
+    prefixed "observation_spec." (obsSpec ⟨10, 7, true⟩) = declared "spec-only-sokoban-toy" "observation_spec." ∧
+    [("action_spec", actionSpec)] = declared "spec-only-sokoban-toy" "action_spec" ∧
+    [("reward_spec", PzS.rewardSpec)] = declared "spec-only-sokoban-toy" "reward_spec" ∧
+    [("discount_spec", discountSpec)] = declared "spec-only-sokoban-toy" "discount_spec" := by
+  refine ⟨by decide +kernel, by decide +kernel, by decide +kernel, by decide +kernel, by decide +kernel, by decide +kernel,
+    by decide +kernel, by decide +kernel, by decide +kernel, by decide +kernel, by decide +kernel, by decide +kernel⟩
 
 /-- the `reset` observation of every consistent generated level is accepted by `observation_spec.validate`: fields
 `grid`, `step_count`; shapes `(n, n, 2)`, `()`; dtypes uint8, int32; cells in [0, 4] -/
@@ -438,7 +488,10 @@ theorem sokoban_toy_obs_valid_along (rnd : Rat → Rat) (cfg : Cfg) (hn : cfg.n 
   Sokoban.obs_valid_along rnd cfg s (by rw [hn]; exact Sokoban.cert_consistent (Sokoban.toy_cert_of_eq hg)) as ha a ha4
 
 /-- what membership means: `validate` accepts an observation ONLY IF its planes have `n` rows, `n·n·2` cells in all,
-every one in [0, 4] -/
+every one in [0, 4]  CAVEAT (audits r4 #7, r5 #5, r6 #5): for every field that is a nested list, `toNValue` reads the widths off the FIRST row of the
+nested list, so the shape conjuncts here mean "row count, length of the first row, total number of cells" — a ragged value with the right total can be a
+member, and nothing is concluded about the later rows.  Rectangularity is part of the invariant (`SpecInv` / `Shaped` / `Rect…`) under which the
+forward theorems (`…_reset_obs_valid`, `…_step_obs_valid`, `…_along`) are proved, i.e. it holds of every EMITTED observation. -/
 theorem sokoban_obs_valid_only (cfg : Cfg) (o : Obs) (h : (obsSpec cfg).valid (toNValue cfg o) = true) :
     List.length o.vgrid = cfg.n ∧ (stackLast o.vgrid o.fgrid).length = cfg.n * cfg.n * 2 ∧
     ∀ v ∈ stackLast o.vgrid o.fgrid, 0 ≤ v ∧ v ≤ 4 := Sokoban.obs_valid_only cfg o h
